@@ -46,6 +46,17 @@ func Bool(s Src, label string) bool { return s.Int(label, 0, 1) == 1 }
 // Pick draws an index in [0, n).
 func Pick(s Src, label string, n int) int { return s.Int(label, 0, n-1) }
 
+// Tail draws an index in [0, big): five times out of six (for big close to n) from [0, n), otherwise from [n, big).
+// One draw, and a recorded value below n replays as itself, so that widening a Pick(n) into a Tail(n, big) keeps saved
+// inputs valid.
+func Tail(s Src, label string, n, big int) int {
+	x := s.Int(label, 0, 5*n+(big-n)-1)
+	if x < 5*n {
+		return x % n
+	}
+	return n + (x - 5*n)
+}
+
 // PickStr draws one of the given strings.
 func PickStr(s Src, label string, opts ...string) string { return opts[s.Int(label, 0, len(opts)-1)] }
 
